@@ -266,8 +266,8 @@ ADDED = {
     "C13": "Also in the search: 3..12 further entry points per interface tried with stale, wrong-kind and never-issued "
            "ids; opening a missing file and a file that is no HDF file; 257..264 files open at once; ids that share a "
            "chain of the id table released in any order; a call that fails half way releases what it attached.",
-    "C14": "69 mutators incl. whole-chunk writes, Hsetlength/Happendable on a read id, SDstart/Hopen on a file that is no "
-           "HDF file; a second client holding the file open for writing during phase B (SD calls); files whose version "
+    "C14": "70 mutators incl. whole-chunk writes, Hsetlength/Happendable on a read id, SDstart/Hopen on a file that is no "
+           "HDF file, GRwriteimage on a run-length encoded image of the old raster interface; a second client holding the file open for writing during phase B (SD calls); files whose version "
            "element the application removed; in phase C a reader half way through an element while the file is opened "
            "for writing goes on and gets the element's bytes.",
     "C16": "The first 18 programs of every batch are directed (one per storage layout incl. external files shared by two "
